@@ -1837,7 +1837,30 @@ func ruleLevelsBounded(w *World, r *Report) {
 					for _, leaf := range phiLeaves(arg) {
 						if cv, ok := constInt(leaf); ok {
 							if cv < lo || cv > hi {
-								okAll, why = false, fmt.Sprintf("constant level %d", cv)
+								// a constant outside the range that reaches the argument through a phi (a counter that
+								// starts at 0) is fine when a dominating fact on the argument excludes that value
+								excluded := false
+								for _, cf := range dominatingConds(b) {
+									for _, a := range condAtoms(cf.If.Cond, cf.Truth) {
+										bo, isB := a.V.(*ssa.BinOp)
+										if !isB || stripConv(bo.X) != stripConv(arg) {
+											continue
+										}
+										cy, yc := constInt(bo.Y)
+										if !yc {
+											continue
+										}
+										switch {
+										case cy == cv && ((bo.Op == token.EQL && !a.Truth) || (bo.Op == token.NEQ && a.Truth)):
+											excluded = true
+										case cv < lo && ((bo.Op == token.GTR && a.Truth && cy >= cv) || (bo.Op == token.GEQ && a.Truth && cy > cv) || (bo.Op == token.LEQ && !a.Truth && cy >= cv) || (bo.Op == token.LSS && !a.Truth && cy > cv)):
+											excluded = true
+										}
+									}
+								}
+								if !excluded || leaf == arg {
+									okAll, why = false, fmt.Sprintf("constant level %d", cv)
+								}
 							}
 							continue
 						}
